@@ -12,6 +12,8 @@ import (
 	"runtime"
 	"runtime/metrics"
 	"sort"
+	"syscall"
+	"time"
 
 	"verif/engines/common"
 	"verif/model"
@@ -142,6 +144,9 @@ func (Engine) Run(c *simkit.Choices, x *simkit.Ctx) *simkit.Violation {
 	if c.N(3) == 0 {
 		return truncation(c, x, cd, f, doc)
 	}
+	if c.N(250) == 0 {
+		return scaling(c, x, cd, f)
+	}
 
 	// hostile inputs derived from this document
 	ninputs := 6 + c.N(10)
@@ -235,6 +240,137 @@ func judge(f model.Format, sc *Scenario, data []byte, r *result, cd *common.Code
 		x.Stats.Probe("alloc-counter-noise-filtered")
 	}
 	return nil
+}
+
+// threadCPU returns the CPU time consumed by the calling OS thread.
+func threadCPU() time.Duration {
+	var ru syscall.Rusage
+	syscall.Getrusage(1 /* RUSAGE_THREAD */, &ru)
+	return time.Duration(ru.Utime.Nano() + ru.Stime.Nano())
+}
+
+// scalingPatterns are monotonous inputs on which a per-byte cost that depends
+// on what was buffered so far turns into quadratic time.
+func scalingPattern(c *simkit.Choices, f model.Format, n int) ([]byte, string) {
+	rep := func(head string, unit string, tail string) []byte {
+		b := []byte(head)
+		for len(b) < n {
+			b = append(b, unit...)
+		}
+		return append(b, tail...)
+	}
+	switch f {
+	case model.JSON:
+		switch c.N(8) {
+		case 0:
+			return rep(`"`, `\\\\`, `"`), "json string of backslashes"
+		case 1:
+			return rep(`"`, `a`, `"`), "json long plain string"
+		case 2:
+			return rep(`"`, `\u00e9`, `"`), "json string of \\u escapes"
+		case 3:
+			return rep(``, `1`, ` `), "json long number"
+		case 4:
+			return rep(``, `[`, ``), "json nesting"
+		case 5:
+			return rep(`[`, ` `, `]`), "json whitespace run"
+		case 6:
+			return rep(`{"`, `k`, `":1}`), "json long key"
+		default:
+			return rep(`[`, `1,`, `1]`), "json many elements"
+		}
+	case model.CBOR:
+		switch c.N(4) {
+		case 0:
+			return rep(``, "\x81", "\x01"), "cbor nesting"
+		case 1:
+			b := []byte{0x7a, byte(n >> 24), byte(n >> 16), byte(n >> 8), byte(n)}
+			return append(b, make([]byte, n)...), "cbor long text"
+		case 2:
+			return rep("\x9f", "\x01", "\xff"), "cbor many elements"
+		default:
+			b := []byte{0x5a, byte(n >> 24), byte(n >> 16), byte(n >> 8), byte(n)}
+			return append(b, make([]byte, n)...), "cbor long byte string"
+		}
+	default:
+		switch c.N(4) {
+		case 0:
+			return rep(``, "[", ``), "ubjson nesting"
+		case 1:
+			b := []byte{'S', 'l', byte(n >> 24), byte(n >> 16), byte(n >> 8), byte(n)}
+			return append(b, make([]byte, n)...), "ubjson long string"
+		case 2:
+			return rep("[", "N", "]"), "ubjson no-ops"
+		default:
+			return rep("[", "i\x01", "]"), "ubjson many elements"
+		}
+	}
+}
+
+// scaling: the same monotonous input at size N and 4N, delivered in tiny
+// chunks, must cost about 4x the thread CPU time, not 16x. This is the one
+// place where a clock is an oracle (the property speaks of time proportional
+// to the input): thread CPU time, a ratio with an absolute floor, and three
+// confirmations before anything is reported.
+func scaling(c *simkit.Choices, x *simkit.Ctx, cd *common.Codec, f model.Format) *simkit.Violation {
+	st := x.Stats
+	patSeed := c.N(1 << 20)
+	entry := []string{"write", "decoder-reader"}[c.N(2)]
+	chunk := 1 + c.N(3)
+	measure := func(n int) (time.Duration, string, int) {
+		data, name := scalingPattern(simkit.ReplayChoices([]uint64{uint64(patSeed % 8)}), f, n)
+		sc := &Scenario{Format: string(f), Doc: fmt.Sprintf("(%s, %d bytes)", name, len(data)), Entry: entry, BufSize: chunk, Reads: []int{chunk}}
+		var cuts []int
+		for p := chunk; p < len(data); p += chunk {
+			cuts = append(cuts, p)
+		}
+		sc.Cuts = nil
+		simkit.SetCurrent(sc)
+		x.Alive()
+		t := simkit.NewTap(nil)
+		t.NoRecord = true
+		runtime.LockOSThread()
+		t0 := threadCPU()
+		simkit.Guard(func() {
+			if entry == "write" {
+				simkit.Feed(cd.NewParser(t), data, cuts, false, nil)
+			} else {
+				dec := cd.NewDecoder(&simkit.Reader{Data: data, Sizes: []int{chunk}}, chunk, t)
+				for i := 0; i < len(data)+8; i++ {
+					if dec.Next() != nil {
+						break
+					}
+				}
+			}
+		})
+		d := threadCPU() - t0
+		runtime.UnlockOSThread()
+		return d, name, len(data)
+	}
+	const n1, n2 = 16 << 10, 64 << 10
+	st.Eval(2)
+	st.Fault("tiny-chunks-on-monotonous-input")
+	t1, name, _ := measure(n1)
+	t2, _, len2 := measure(n2)
+	st.Distinct(simkit.NewDigest().Str("scaling" + string(f) + name + entry).Int(chunk).Sum())
+	bad := func(t1, t2 time.Duration) bool { return t2 > 150*time.Millisecond && t2 > 10*t1 }
+	if !bad(t1, t2) {
+		st.Probe("scaling-linear")
+		return nil
+	}
+	for i := 0; i < 3; i++ { // confirm: all repetitions must show it
+		a, _, _ := measure(n1)
+		b, _, _ := measure(n2)
+		if !bad(a, b) {
+			st.Probe("scaling-outlier-not-confirmed")
+			return nil
+		}
+		t1, t2 = a, b
+	}
+	return &simkit.Violation{Kind: "superlinear-time", Site: string(f) + "/" + entry + "/" + name,
+		Detail: fmt.Sprintf("%s in %d-byte chunks: %d bytes take %v of CPU time, %d bytes take %v (x%.1f for 4x the input; confirmed 3 times)",
+			name, chunk, n1, t1, len2, t2, float64(t2)/float64(t1+1)),
+		Scenario: &Scenario{Format: string(f), Doc: fmt.Sprintf("(%s, %d and %d bytes)", name, n1, n2), Entry: entry, BufSize: chunk}}
 }
 
 // truncation: every strict prefix of a valid stream that ends inside a value
